@@ -6,7 +6,7 @@ PROP = "C23"
 RULE = (
     "double-quoted literals with prefix '', r, b, br, rb (and upper-case/other orders as near misses) whose body is a sequence of "
     "pieces: ASCII runs, quotes-in-escapes, non-ASCII (BMP, astral, combining), raw LF/CR/CRLF, every valid escape (\\n \\t \\\\ \\\" \\' "
-    "\\a \\b \\f \\v \\r, octal \\0..\\377 with 1-3 digits, \\xhh, \\N{NAME}, \\uXXXX, \\UXXXXXXXX, backslash-newline), invalid "
+    "\\a \\b \\f \\v \\r, octal \\0..\\777 with 1-3 digits, \\xhh, \\N{NAME}, \\uXXXX, \\UXXXXXXXX, backslash-newline), invalid "
     "escapes (\\q \\8 \\9 \\z \\N \\u \\U under b, truncated \\x4 \\u12 \\U1234, unknown \\N{...}, \\N without brace); oracle: CPython "
     "evaluating prefix + \"\"\"body\"\"\" with warnings as errors: a value => Hy reads one String/Bytes of the same type and value; "
     "an invalid-escape warning or SyntaxError => Hy raises LexException. Bracket strings #[D[...]D] with random delimiters "
@@ -191,7 +191,7 @@ def shard(ctx):
             ctx.count("skipped:body-has-unescaped-quote-or-dangling-backslash")
             return
         if not in_scope(p, b):
-            ctx.count("skipped:backslash-before-non-ascii-or-octal-above-377")
+            ctx.count("skipped:backslash-before-non-ascii")
             return
         case = dict(prefix=p, body=b)
         nt = "\\" in b or "\n" in b or "\r" in b or not b.isascii()
